@@ -7,6 +7,7 @@ spec-conformant fragmenting peer written here from AVCTP 1.4 section 6, real avd
 import struct
 
 from vf.e1 import harness, untraced
+from vf import flags as _flags
 from vf import detloop
 
 from bumble import core, sdp, avdtp, avctp
@@ -303,3 +304,6 @@ def avctp_garbage_then_single(x0: int, x1: int, x2: int, x3: int, n: int) -> boo
     k = len(got)
     asm.on_pdu(bytes([5 << 4, 0x11, 0x0E, 0xAA, 0xBB]))
     return len(got) == k + 1 and got[-1] == (5, True, 0x110E, b'\xaa\xbb')
+
+
+_flags.int_format_placeholder = True     # log f-strings with symbolic ints are not the subject here (see vf/flags.py)
